@@ -144,6 +144,49 @@ impl PendingEvents {
     }
 }
 
+#[cfg(anysystem_verif)]
+impl PendingEvents {
+    /// Verification hook: the raw offered id set (no assertion, no ordering mode filter).
+    pub fn verif_available_raw(&self) -> BTreeSet<McEventId> {
+        self.available_events.clone()
+    }
+
+    /// Verification hook: the offered id set for the given ordering mode.
+    pub fn verif_available(&self, mode: &EventOrderingMode) -> BTreeSet<McEventId> {
+        self.available_events(mode)
+    }
+
+    /// Verification hook: live (pending) events with their ids, in id order.
+    pub fn verif_live(&self) -> Vec<(McEventId, McEvent)> {
+        self.events.iter().map(|(id, e)| (*id, e.clone())).collect()
+    }
+
+    /// Verification hook: re-insert an event under a fixed id.
+    pub fn verif_push_with_fixed_id(&mut self, event: McEvent, id: McEventId) -> McEventId {
+        self.push_with_fixed_id(event, id)
+    }
+
+    /// Verification hook: cancel all events of a process.
+    pub fn verif_cancel_proc_events(&mut self, proc: &String) -> Vec<McEvent> {
+        self.cancel_proc_events(proc)
+    }
+
+    /// Verification hook: the (process, timer name) -> id mapping, in key order.
+    pub fn verif_timer_mapping(&self) -> Vec<((String, String), usize)> {
+        self.timer_mapping.iter().map(|(k, v)| (k.clone(), *v)).collect()
+    }
+
+    /// Verification hook: the next fresh id.
+    pub fn verif_id_counter(&self) -> McEventId {
+        self.id_counter
+    }
+
+    /// Verification hook: Debug rendering of the dependency resolver.
+    pub fn verif_resolver_debug(&self) -> String {
+        format!("{:?}", self.resolver)
+    }
+}
+
 #[cfg(test)]
 mod tests {
     use rand::prelude::IteratorRandom;
